@@ -108,7 +108,7 @@ class C08(Check):
     reference_models = ["ref/refext4.py tree_digest() and check()", "byte images of the device before and after the run (crash-state oracle)"]
 
     def budget(self, tier):
-        return {"runs": 260, "wall_s": 110} if tier == "quick" else {"runs": 20000, "wall_s": 1500}
+        return {"runs": 1500, "wall_s": 80} if tier == "quick" else {"runs": 40000, "wall_s": 1500}
 
     def generate(self, rng, tier):
         cfg = gen_config(rng, avoid=("mmp",))
@@ -121,7 +121,18 @@ class C08(Check):
             cfg["size_kib"] = 8192
         factor = {"grow": rng.choice([1.02, 1.1, 1.3, 1.7, 2.0, 3.1, 4.0]), "shrink": rng.choice([0.5, 0.6, 0.75, 0.9, 0.97]),
                   "same": 1.0}.get(kind, 1.0)
+        spread = rng.chance(0.4)
+        if spread:
+            # few inodes per group and many objects: inodes (and directories created late) spill into every group, so a
+            # shrink has inodes to relocate
+            cfg["inode_ratio"] = rng.choice([32768, 65536])
+            if "cluster" not in cfg:
+                cfg["bpg"] = {1024: rng.choice([256, 512]), 2048: rng.choice([512, 1024]), 4096: rng.choice([1024, 2048])}[cfg["bs"]]
+            if kind == "shrink":
+                factor = rng.choice([0.3, 0.4, 0.5, 0.6, 0.75])
+        tight = kind == "shrink" and rng.chance(0.3)
         return {"cfg": cfg, "world_seed": rng.u64(), "kind": kind, "kib": max(1024, int(cfg["size_kib"] * factor)),
+                "spread": spread, "tight": tight, "tight_delta": rng.choice([0, 0, 1, 2, 3, 8, 30]), "fill": rng.chance(0.25),
                 "flags": rng.choice([[], [], ["-p"], ["-f"]]), "subset_seed": rng.u64(), "subsets": 6 if tier == "quick" else 24,
                 "scale": rng.choice([0.6, 1.0, 1.6])}
 
@@ -129,12 +140,39 @@ class C08(Check):
         o = Outcome()
         rng = Rng(spec["world_seed"])
         cfg = spec["cfg"]
-        w = build_world(rng, wd, cfg=dict(cfg), scale=spec["scale"], big_dir=rng.weighted([(0, 3), (rng.range(30, 200), 2)]))
+        w = build_world(rng, wd, cfg=dict(cfg), scale=spec["scale"],
+                        big_dir=rng.weighted([(0, 3), (rng.range(30, 200), 2)]) if not spec.get("spread") else rng.range(60, 300),
+                        late_dirs=rng.range(2, 8) if spec.get("spread") else 0)
         if w["rejected"]:
             o.stats["world.rejected"] += 1
             o.trace = "rejected"
             return o
         img = w["img"]
+        if spec.get("spread"):
+            # delete the filler files again: what stays are few objects whose inodes sit in high groups
+            names = [c.split('"')[3] for c in w["cmds"] if c.startswith("write ") and c.count('"') >= 4 and c.split('"')[3].startswith("/bigdir/")]
+            if names:
+                from world import debugfs_script
+                keep_every = rng.choice([0, 0, 7, 20])
+                rmcmds = ['rm "%s"' % n for k, n in enumerate(names) if not (keep_every and k % keep_every == 0)]
+                debugfs_script(img, rmcmds, wd, tag="thin", rand_seed=6)
+                e2fsck(img, ["-fy"], wd, tag="settle3", problems=False)
+                o.stats["probe.thinned"] += 1
+        if spec.get("fill"):
+            # a nearly full filesystem: a shrink must squeeze data into the last free blocks
+            try:
+                fsx = refext4.RefFS(path=img)
+                free = fsx.sb["s_free_blocks_count"] * fsx.block_size * fsx.cluster_ratio
+                big = os.path.join(wd, "fill.host")
+                with open(big, "wb") as f:
+                    f.write(Rng(spec["world_seed"] ^ 0xF111).bytes(4096) * (int(free * rng.choice([0.5, 0.7, 0.8])) // 4096))
+                from world import debugfs_script
+                debugfs_script(img, ['write "%s" /fill.bin' % big], wd, tag="fill", rand_seed=8)
+                e2fsck(img, ["-fy"], wd, tag="settle2", problems=False)
+                os.unlink(big)
+                o.stats["probe.filled"] += 1
+            except Exception as ex:
+                o.observations.append("fill failed: %r" % ex)
         r0, c0 = e2fsck(img, ["-fn"], wd, tag="pre", clock=1500002000)
         if r0.status != 0 or c0:
             o.stats["world.not_clean"] += 1
@@ -150,6 +188,17 @@ class C08(Check):
             return o
         kind = spec["kind"]
         argv = [tool("resize2fs")] + spec["flags"]
+        if spec.get("tight"):
+            # a shrink to (just below) the minimum resize2fs itself estimates, forced: the block mover has to use every
+            # free block of the remaining groups
+            rp = run_sim([tool("resize2fs"), "-P", img], Plan([img], None, clock=1500002500, rand_seed=9), wd, tag="rsP")
+            mm = re.search(rb"minimum size of the filesystem: (\d+)", rp.out + rp.err)
+            if mm:
+                minblk = int(mm.group(1))
+                spec = dict(spec)
+                spec["kib"] = max(64, (minblk - spec["tight_delta"]) * cfg["bs"] // 1024)
+                argv = [tool("resize2fs"), "-f"]
+                o.stats["probe.tight_shrink"] += 1
         if kind == "min":
             argv += ["-M", img]
         elif kind == "to64":
@@ -177,6 +226,21 @@ class C08(Check):
         fssize0 = fs0.blocks_count * fs0.block_size
         ck = "%s|%s" % (kind, "+".join(f for f in ("bigalloc", "meta_bg", "flex_bg", "resize_inode", "64bit", "quota", "metadata_csum", "sparse_super2")
                                        if f in cfg["features"]))
+        # ---------------- reach probes: did the run have inodes to relocate?
+        if r.status == 0 and len(post) >= 2048:
+            try:
+                fsq = refext4.RefFS(data=post)
+                if fsq.group_count < fs0.group_count:
+                    cut = fsq.group_count * fs0.inodes_per_group
+                    moved = [rec for rec in recs0.values() if rec.get("ino", 0) > cut]
+                    if moved:
+                        o.stats["probe.shrink_relocated_inodes"] += 1
+                    if any(rec["type"] == 0o040000 for rec in moved):
+                        o.stats["probe.shrink_relocated_dirs"] += 1
+                        if "inline_data" in cfg["features"]:
+                            o.stats["probe.shrink_relocated_dirs_inline_fs"] += 1
+            except Exception as ex:
+                o.observations.append("reach probe failed: %r" % ex)
         # ---------------- data clauses
         if r.status == 0:
             m = re.search(r"is now (\d+) \((\d+)k\) blocks long", out)
